@@ -163,6 +163,22 @@ def createAsk (env : Env) (s : State) (sender : String) (funds : List Coin)
   let msgs ← pullR env base size sender
   pure ({ s with asks := s.asks.set id ask }, { msgs := msgs, attrs := attrs })
 
+/-- the configured bid fee rate (0 when no fee is configured) -/
+def bidRateR (info : Info) : Res Dec :=
+  match info.bidFee with
+  | some fi => orErr (Dec.parse fi.rate) .invalidFields
+  | none => .ok (Dec.ofNat 0)
+
+/-- the fee sent with a bid must be the calculated one, in the quote denomination -/
+def checkFee (fee : Option Coin) (feeSize : Nat) (quote : String) : Res Unit :=
+  match fee with
+  | some f =>
+    if f.amount == feeSize then guardR (f.denom == quote) .sentFundsMismatch
+    else .err .invalidFeeSize
+  | none => guardR (feeSize == 0) .invalidFeeSize
+
+def feeAmt (fee : Option Coin) : Nat := match fee with | some f => f.amount | none => 0
+
 def createBid (env : Env) (s : State) (sender : String) (funds : List Coin)
     (id base : String) (fee : Option Coin) (price quote : String) (quoteSize size : Nat) :
     Res (State × Response) := do
@@ -174,28 +190,28 @@ def createBid (env : Env) (s : State) (sender : String) (funds : List Coin)
   guardR (!total.hasFract) .nonIntegerTotal
   let q ← Dec.fromU128 quoteSize
   guardR (Dec.eqv total q) .sentFundsMismatch
-  let rate ← match info.bidFee with
-    | some fi => orErr (Dec.parse fi.rate) .invalidFields
-    | none => pure (Dec.ofNat 0)
+  let rate ← bidRateR info
   let feeSize ← Dec.rateFee rate total
-  match fee with
-    | some f => do
-        guardR (f.amount == feeSize) .invalidFeeSize
-        guardR (f.denom == quote) .sentFundsMismatch
-    | none => guardR (feeSize == 0) .invalidFeeSize
+  checkFee fee feeSize quote
   guardR (memS quote info.quotes) .unsupportedQuote
   guardR (base == info.baseDenom) .inconvertibleBase
   checkAttrs env sender info.bidAttrs
   let restricted := env.restricted quote
-  let due := total.trunc + (match fee with | some f => f.amount | none => 0)
+  let due := total.trunc + feeAmt fee
   guardR (fundsOk restricted funds ⟨quote, due⟩) .sentFundsMismatch
   guardR (s.bids.get? id).isNone .invalidFields
   let bid : Bid := { base := ⟨base, size⟩, accBase := 0, accQuote := 0, accFee := 0, fee := fee,
                      id := id, owner := sender, price := price, quote := ⟨quote, quoteSize⟩ }
   let attrs := [("action", "create_bid"), ("base", base), ("id", id), ("price", price),
                 ("quote", quote), ("quote_size", toString quoteSize), ("size", toString size)]
-  let msgs ← pullR env quote (quoteSize + (match fee with | some f => f.amount | none => 0)) sender
+  let msgs ← pullR env quote (quoteSize + feeAmt fee) sender
   pure ({ s with bids := s.bids.set id (.v3 bid) }, { msgs := msgs, attrs := attrs })
+
+/-- only an ask that is still pending can be approved -/
+def checkPending : AskClass → Res Unit
+  | .ready _ _ => .err .askReady
+  | .basic => .err .inconvertibleBase
+  | .pending => .ok ()
 
 def approveAsk (env : Env) (s : State) (sender : String) (funds : List Coin)
     (id base : String) (size : Nat) : Res (State × Response) := do
@@ -204,10 +220,7 @@ def approveAsk (env : Env) (s : State) (sender : String) (funds : List Coin)
   let restricted := env.restricted base
   guardR (fundsOk restricted funds ⟨base, size⟩) .sentFundsMismatch
   let ask ← orErr (s.asks.get? id) .invalidFields
-  match ask.cls with
-    | .ready _ _ => .err .askReady
-    | .basic => .err .inconvertibleBase
-    | .pending => pure ()
+  checkPending ask.cls
   guardR (size == ask.size && base == info.baseDenom) .sentFundsMismatch
   let cls : AskClass := .ready sender ⟨base, size⟩
   let ask' : Ask := { ask with cls := cls }
@@ -439,38 +452,48 @@ def executeMatch (env : Env) (s : State) (sender : String) (funds : List Coin)
                     ("size", toString size), ("ask_fee", toString askFee),
                     ("bid_fee", toString bidFee)] })
 
+/-- the supplied rate equals the current one as a number (both `unwrap`s can panic) -/
+def ratesEqual (cur : FeeInfo) (r : String) : Res Unit := do
+  let a ← orErr (Dec.parse cur.rate) .panic
+  let b ← orErr (Dec.parse r) .panic
+  guardR (Dec.eqv a b) .invalidFields
+
 /-- `check_fee_rate` -/
-def checkFeeRate (contains : Bool) (cur : Option FeeInfo) (newRate newAcct : Option String) :
+def checkFeeRate (contains : Bool) (cur : Option FeeInfo) (newRate _newAcct : Option String) :
     Res Unit :=
   if contains then
-    match newRate, newAcct with
-    | some r, _ =>
-      match cur with
-      | some c => do
-          let a ← orErr (Dec.parse c.rate) .panic
-          let b ← orErr (Dec.parse r) .panic
-          guardR (Dec.eqv a b) .invalidFields
-      | none => .err .invalidFields
-    | _, _ => .ok ()
+    match newRate, cur with
+    | some r, some c => ratesEqual c r
+    | some _, none => .err .invalidFields
+    | none, _ => .ok ()
   else .ok ()
+
+/-- a supplied address list must validate -/
+def addrListR (env : Env) (l : Option (List String)) : Res Unit :=
+  match l with
+  | some l => validAddrs env l
+  | none => .ok ()
 
 /-- field-wise update shared by `modify_contract_info` and `migrate_contract_info` -/
 def applyOverrides (env : Env) (info : Info) (approvers executors : Option (List String))
     (askRate askAcct bidRate bidAcct : Option String) (askAttrs bidAttrs : Option (List String)) :
     Res Info := do
-  let info ← match approvers with
-    | some l => do validAddrs env l; pure { info with approvers := l }
-    | none => pure info
-  let info ← match executors with
-    | some l => do validAddrs env l; pure { info with executors := l }
-    | none => pure info
+  addrListR env approvers
+  addrListR env executors
   let af ← feePair env askAcct askRate
-  let info := match af with | some v => { info with askFee := v } | none => info
   let bf ← feePair env bidAcct bidRate
-  let info := match bf with | some v => { info with bidFee := v } | none => info
-  let info := match askAttrs with | some l => { info with askAttrs := l } | none => info
-  let info := match bidAttrs with | some l => { info with bidAttrs := l } | none => info
-  pure info
+  pure { info with approvers := approvers.getD info.approvers,
+                   executors := executors.getD info.executors,
+                   askFee := af.getD info.askFee,
+                   bidFee := bf.getD info.bidFee,
+                   askAttrs := askAttrs.getD info.askAttrs,
+                   bidAttrs := bidAttrs.getD info.bidAttrs }
+
+/-- while any order is open the current approvers must all stay -/
+def approversKept (info : Info) (anyOpen : Bool) (approvers : Option (List String)) : Res Unit :=
+  match approvers with
+  | some l => guardR (!anyOpen || subsetS info.approvers l) .invalidFields
+  | none => .ok ()
 
 def modifyContract (env : Env) (s : State) (sender : String) (funds : List Coin)
     (approvers executors : Option (List String))
@@ -485,9 +508,7 @@ def modifyContract (env : Env) (s : State) (sender : String) (funds : List Coin)
   let hasBid := !s.bids.isEmpty
   guardR (!(hasBid && bidAttrs.isSome)) .invalidFields
   checkFeeRate hasBid info.bidFee bidRate bidAcct
-  match approvers with
-    | some l => guardR (!(hasAsk || hasBid) || subsetS info.approvers l) .invalidFields
-    | none => pure ()
+  approversKept info (hasAsk || hasBid) approvers
   let v ← orErr (Version.parse s.version.version) .semver
   guardR (!v.ltReq 0 16 2) .unsupportedUpgrade
   let info' ← applyOverrides env info approvers executors askRate askAcct bidRate bidAcct
